@@ -167,7 +167,18 @@ def run_case(case, ctx, st):
                 covs = [spd(rng, d) for _ in range(K)]
                 scale_arg = covs
             ctx.case = dict(case, generator="draw_gmm", d=d, K=K, n=n, props=props, means=means, scale=[c.tolist() for c in covs], rs=seed)
-            X, y = twice(lambda: draw_gmm(n, means.tolist(), scale_arg, props, random_state=seed))
+            loc_arg, pv_arg = means.tolist(), props
+            as_arrays = bool(rng.random() < 0.5)
+            if as_arrays:
+                # parameters handed over as float64 ndarrays (no defensive copy on the way in): the caller's arrays must
+                # come back untouched and a second identical call must give the same draw
+                loc_arg, scale_arg, pv_arg = np.array(means, dtype=np.float64), np.array(scale_arg, dtype=np.float64), np.array(props, dtype=np.float64)
+                before = [a.copy() for a in (loc_arg, scale_arg, pv_arg)]
+                ctx.count("gmm_ndarray_parameter_calls")
+            X, y = twice(lambda: draw_gmm(n, loc_arg, scale_arg, pv_arg, random_state=seed))
+            if as_arrays and not all(np.array_equal(a, b) for a, b in zip(before, (loc_arg, scale_arg, pv_arg))):
+                ctx.violation("no-side-effect", "generator-modifies-its-arguments/draw_gmm" + ("-1d" if d == 1 else ""),
+                              observed={"scale_before": before[1], "scale_after": scale_arg}, expected="unchanged")
             ctx.count("gmm_calls")
             if X.shape != (n, d) or y.shape != (n,) or not np.issubdtype(y.dtype, np.integer) or y.min() < 0 or y.max() >= K:
                 ctx.violation("shapes", "gmm-shape-or-label-range", observed={"X": list(X.shape), "y": list(y.shape), "dtype": str(y.dtype)}, expected=[n, d])
@@ -175,7 +186,7 @@ def run_case(case, ctx, st):
             check_labels(ctx, y, props, "gmm" + ("-1d" if d == 1 else ""))
             for k in range(K):
                 check_gaussian_component(ctx, X[y == k], means[k], covs[k], f"component {k}", "gmm" + ("-1d" if d == 1 else ""))
-            X2, y2 = draw_gmm(n, means.tolist(), scale_arg, props, random_state=seed + 1)
+            X2, y2 = draw_gmm(n, means.tolist(), [c.tolist() for c in covs] if d > 1 else [[float(c[0, 0])] for c in covs], props, random_state=seed + 1)
             if np.array_equal(X, X2):
                 ctx.violation("determinism", "different-seeds-same-output/gmm", observed="equal", expected="different")
         elif which == "student":
@@ -191,7 +202,10 @@ def run_case(case, ctx, st):
                 S = B @ B.T
                 ctx.count("student_singular_scale_calls")
             ctx.case = dict(case, generator="multivariate_student_t", d=d, df=df, n=n, loc=loc, scale=S.tolist(), rs=seed)
-            X = twice(lambda: multivariate_student_t(n, loc.tolist(), S, df=df, random_state=seed))
+            S_before, loc_before = S.copy(), loc.copy()
+            X = twice(lambda: multivariate_student_t(n, loc if i % 2 else loc.tolist(), S, df=df, random_state=seed))
+            if not (np.array_equal(S, S_before) and np.array_equal(loc, loc_before)):
+                ctx.violation("no-side-effect", "generator-modifies-its-arguments/multivariate_student_t", observed="changed", expected="unchanged")
             ctx.count("student_calls")
             if X.shape != (n, d):
                 ctx.violation("shapes", "student-shape", observed=list(X.shape), expected=[n, d])
